@@ -71,10 +71,11 @@ def pint_norm(p):
     return p
 
 class Region:
-    __slots__ = ('id', 'size', 'cells', 'live', 'kind', 'name', 'const', 'note')
+    __slots__ = ('id', 'size', 'cells', 'live', 'kind', 'name', 'const', 'note', 'sym_size', 'sym_min')
     def __init__(self, id, size, kind, name):
         self.id = id; self.size = size; self.cells = {}; self.live = True
         self.kind = kind; self.name = name; self.const = False; self.note = None
+        self.sym_size = None; self.sym_min = 0      # allocation whose byte count is symbolic: size is the backing store only
 
 SHIFT = 32
 OFFMASK = (1 << SHIFT) - 1
@@ -138,6 +139,7 @@ class Interp:
         self.strict_undef = True
         self.pending_ctors = []
         self.live_exceptions = {}
+        self.poly_mode = False; self.polytab = {}; self.polyvars = []; self.polycache = {}; self.poly_residue = 0
         from . import models
         models.install(self)
         models.install_strings(self)
@@ -153,7 +155,7 @@ class Interp:
         if type(addr) is not int:
             if addr is UNDEF:
                 raise MemoryError_('uninitialised-pointer', '%s through an uninitialised pointer' % what, self.where())
-            addr = self.concretize_int(addr)
+            addr = self.symbolic_address(addr, size, what)
         rid = addr >> SHIFT
         if rid <= 0 or rid >= len(self.regions):
             raise MemoryError_('invalid-pointer', '%s of %d bytes at address 0x%x (no such object)' % (what, size, addr), self.where())
@@ -161,9 +163,64 @@ class Interp:
         off = addr & OFFMASK
         if not r.live:
             raise MemoryError_('use-after-free', '%s of %d bytes at offset %d of dead %s region %s' % (what, size, off, r.kind, r.name), self.where())
+        if r.sym_size is not None:
+            if off + size > r.sym_min:
+                if not self.decide(S.cmp('le', S.iconst(off + size, 64), r.sym_size)):
+                    raise MemoryError_('out-of-bounds', '%s of %d bytes at offset %d of %s region %s whose size is symbolic (%s)' % (what, size, off, r.kind, r.name, S.show(r.sym_size, 3)), self.where())
+                r.sym_min = off + size
+            if off + size > r.size:
+                raise Unsupported('access at offset %d of a symbolically sized allocation (backing store %d bytes)' % (off, r.size))
+            return r, off
         if off + size > r.size:
             raise MemoryError_('out-of-bounds', '%s of %d bytes at offset %d of %s region %s of size %d' % (what, size, off, r.kind, r.name, r.size), self.where())
         return r, off
+
+    def gep_symbolic(self, a, ins, regs):
+        """address arithmetic with symbolic base or indices (two's complement, modulo 2^64)"""
+        a = self._known(a)
+        if type(a) is not int and not (type(a) is Node and a.sort == 'I'):
+            a = self.concretize_int(a)
+        a = S.iadd(S.I(a, 64), S.iconst(ins[3] & M64, 64), 64)
+        for (s, stride, bits) in ins[4]:
+            i = self._known(regs[s])
+            if type(i) is Node and i.sort == 'I':
+                if bits < 64: i = self.cast('sext', i, bits, 64)
+                a = S.iadd(a, S.imul(i, S.iconst(stride & M64, 64), 64), 64)
+                continue
+            if type(i) is not int:
+                i = self.concretize_int(i)
+            if i >> (bits - 1): i -= 1 << bits
+            a = S.iadd(a, S.iconst((i * stride) & M64, 64), 64)
+        if a.op == 'iconst': return a.args[0]
+        return a
+
+    def symbolic_address(self, addr, size, what):
+        """access through base + symbolic offset: the solver decides whether the offset can leave the object (that path is an
+        out-of-bounds report carrying the path condition); inside the object the feasible addresses are enumerated"""
+        k = self._known(addr)
+        if type(k) is int: return k
+        if type(addr) is Node and addr.sort == 'I' and self.pathctl is not None:
+            def base_of(n):
+                if n.op == 'iconst':
+                    return n.args[0] if 0 < (n.args[0] >> SHIFT) < len(self.regions) else None
+                if n.op == 'iadd':
+                    for a in n.args:
+                        b = base_of(a)
+                        if b is not None: return b
+                    return None
+                if n.op in ('isub', 'irew', 'imod'): return base_of(n.args[0])
+                return None
+            base = base_of(addr)
+            if base is not None:
+                rid = base >> SHIFT; r = self.regions[rid]
+                lo = rid << SHIFT; hi = lo + r.size - size
+                if r.sym_size is not None:
+                    inb = S.band(S.cmp('ge', addr, S.iconst(lo, 64)), S.cmp('le', S.iadd(addr, S.iconst(size, 64), 64), S.iadd(S.iconst(lo, 64), r.sym_size, 64)))
+                else:
+                    inb = S.band(S.cmp('ge', addr, S.iconst(lo, 64)), S.cmp('le', addr, S.iconst(hi, 64))) if hi >= lo else S.FALSE
+                if not self.decide(inb):
+                    raise MemoryError_('out-of-bounds', '%s of %d bytes at a symbolic offset that can lie outside %s region %s of size %d' % (what, size, r.kind, r.name, r.size), self.where())
+        return self.concretize_int(addr)
 
     def where(self):
         return ' <- '.join(reversed(self.call_stack[-6:]))
@@ -204,6 +261,19 @@ class Interp:
         # assemble from overlapping cells
         out = [None] * size
         cells = r.cells
+        # a read that covers whole integer cells of which some are symbolic: little-endian packing
+        pos = off; parts = []
+        while pos < off + size:
+            c = cells.get(pos)
+            if c is None or pos + c[0] > off + size or not (type(c[1]) is int or (type(c[1]) is Node and c[1].sort == 'I')): break
+            parts.append((pos - off, c[1])); pos += c[0]
+        if pos == off + size and len(parts) > 1 and any(type(v) is Node for _, v in parts):
+            w = 8 * size
+            acc = S.iconst(0, w)
+            for sh, v in parts:
+                x = S.izext(v, v.width, w) if type(v) is Node else S.iconst(v, w)
+                acc = S.iadd(acc, S.imul(x, S.iconst(1 << (8 * sh), w), w), w)
+            return acc
         for o in range(off - 15, off + size):
             c = cells.get(o)
             if c is None: continue
@@ -222,7 +292,7 @@ class Interp:
                     w = v.width
                     x = S.iudiv(v, S.iconst(1 << shift, w), w) if shift else v
                     return S.itrunc(x, 8 * size)
-                raise Unsupported('partial read of a symbolic cell at %s' % self.where())
+                raise Unsupported('partial read of a symbolic cell (cell at %d size %d holding %s, read %d bytes at %d) at %s' % (o, cs, S.show(c[1], 3) if type(c[1]) is Node else repr(c[1]), size, off, self.where()))
             for j in range(cs):
                 p = o + j - off
                 if 0 <= p < size:
@@ -1015,7 +1085,79 @@ class Interp:
         if a is UNDEF or b is UNDEF: return UNDEF
         return self.fbin_sym(op, a, b)
 
+    # ---- polynomial normal form in the free real variables (used by translation-invariance runs: poly_mode) ----------------
+    # every symbolic double that is a polynomial in the variables is kept as a canonical node built from its coefficient table
+    # (exact rationals); a polynomial that turns out constant is returned as a plain double, so code that only depends on
+    # coordinate differences runs concretely.
+    def _poly_of(self, x):
+        if type(x) is float:
+            if x != x or x in (math.inf, -math.inf): return None
+            return {(): Fraction(x)}
+        if type(x) is Node:
+            p = self.polytab.get(x.id)
+            if p is not None: return p
+            if x.op == 'var':
+                nm = x.args[0]
+                if nm not in self.polyvars: self.polyvars.append(nm)
+                k = self.polyvars.index(nm)
+                p = {((k, 1),): Fraction(1)}
+                self.polytab[x.id] = p
+                return p
+        return None
+
+    def _poly_node(self, p):
+        p = {m: c for m, c in p.items() if c != 0}
+        if self.poly_residue and len(p) > 1:
+            # coefficients of t-monomials at rounding level (t-free factors are evaluated in floating point, e.g. barycentric
+            # weights that sum to 1 +- 1 ulp) are residue of that evaluation, not dependence on t
+            p = {m: c for m, c in p.items() if m == () or abs(c) > self.poly_residue}
+        if not p: return 0.0
+        if len(p) == 1 and () in p:
+            return float(p[()])
+        key = tuple(sorted(p.items()))
+        n = self.polycache.get(key)
+        if n is None:
+            acc = None
+            for m, c in key:
+                term = S.const(c)
+                for (k, e) in m:
+                    v = S.var(self.polyvars[k])
+                    for _ in range(e): term = S.mul(term, v)
+                acc = term if acc is None else S.add(acc, term)
+            n = acc
+            self.polycache[key] = n
+            self.polytab[n.id] = p
+        return n
+
+    @staticmethod
+    def _poly_mul(pa, pb):
+        r = {}
+        for ma, ca in pa.items():
+            for mb, cb in pb.items():
+                d = dict(ma)
+                for k, e in mb: d[k] = d.get(k, 0) + e
+                m = tuple(sorted(d.items()))
+                r[m] = r.get(m, 0) + ca * cb
+        return r
+
+    def fbin_poly(self, op, a, b):
+        pa = self._poly_of(a); pb = self._poly_of(b)
+        if pa is None or pb is None: return None
+        if op == 0 or op == 1:
+            r = dict(pa)
+            for m, c in pb.items(): r[m] = r.get(m, 0) + (c if op == 0 else -c)
+            return self._poly_node(r)
+        if op == 2:
+            return self._poly_node(self._poly_mul(pa, pb))
+        if op == 3 and len(pb) == 1 and () in pb and pb[()] != 0:
+            inv = 1 / pb[()]
+            return self._poly_node({m: c * inv for m, c in pa.items()})
+        return None
+
     def fbin_sym(self, op, a, b):
+        if self.poly_mode:
+            r = self.fbin_poly(op, a, b)
+            if r is not None: return r
         if self.mode == 'fp':
             if type(a) is int or type(b) is int:
                 raise Unsupported('fp op on integer value')
@@ -1058,6 +1200,12 @@ class Interp:
         if a is UNDEF or b is UNDEF: return UNDEF
         if self.mode == 'fp':
             return FS.fcmp(pred, a, b)
+        if self.poly_mode:
+            d = self.fbin_poly(1, a, b)
+            if type(d) is float:
+                return self.fcmp(pred, d, 0.0)
+            if d is not None:
+                a, b = d, 0.0
         # symbolic real vs possibly infinite constant
         for x, y, flip in ((a, b, False), (b, a, True)):
             if type(y) is float and (y in (math.inf, -math.inf)):
@@ -1183,6 +1331,7 @@ class Interp:
         if self.trace_calls is not None:
             self.trace_calls(cf.name, args)
         steps = 0
+        sym_ptr = self.pathctl is not None and getattr(self.pathctl, 'symbolic_alloc', False)
         try:
             while True:
                 ins = code[pc]
@@ -1191,6 +1340,9 @@ class Interp:
                 op = ins[0]
                 if op == O_GEP:
                     a = regs[ins[2]]
+                    if sym_ptr and (type(a) is Node or any(type(regs[s]) is Node for (s, _, _) in ins[4])):
+                        regs[ins[1]] = self.gep_symbolic(a, ins, regs)
+                        continue
                     if type(a) is not int:
                         a = self.concretize_int(a)
                     a += ins[3]
@@ -1339,6 +1491,7 @@ class Interp:
                     if type(v) is float: regs[ins[1]] = -v
                     elif v is UNDEF: regs[ins[1]] = UNDEF
                     elif self.mode == 'fp': regs[ins[1]] = FS.fneg(v)
+                    elif self.poly_mode and self.fbin_poly(1, 0.0, v) is not None: regs[ins[1]] = self.fbin_poly(1, 0.0, v)
                     else: regs[ins[1]] = S.neg(v)
                 elif op == O_FREEZE:
                     regs[ins[1]] = regs[ins[2]]
